@@ -243,6 +243,44 @@ func genMainPart(r *rng, feats map[string]int, tier string) ([]byte, string) {
 		g.elem("body", 0)
 		label += ", element before the body"
 	}
+	if r.chance(30) {
+		// a plain rows-by-columns table whose grid definition is absent, empty, shorter than, as long as or longer
+		// than its rows: the structural edits of the exercise apply to it whatever the grid says
+		rows, cols := r.rangeI(1, 4), r.rangeI(1, 5)
+		gridCols := []int{-1, 0, r.intn(cols + 1), cols, cols, cols + r.rangeI(1, 2)}[r.intn(6)]
+		var tb strings.Builder
+		tb.WriteString("<w:tbl><w:tblPr><w:tblW w:w=\"5000\" w:type=\"dxa\"/></w:tblPr>")
+		if gridCols >= 0 {
+			tb.WriteString("<w:tblGrid>")
+			for k := 0; k < gridCols; k++ {
+				tb.WriteString(`<w:gridCol w:w="1000"/>`)
+			}
+			tb.WriteString("</w:tblGrid>")
+		}
+		for i := 0; i < rows; i++ {
+			tb.WriteString("<w:tr>")
+			for j := 0; j < cols; j++ {
+				fmt.Fprintf(&tb, `<w:tc><w:p><w:r><w:t>c%d%d</w:t></w:r></w:p></w:tc>`, i, j)
+			}
+			tb.WriteString("</w:tr>")
+		}
+		tb.WriteString("</w:tbl>")
+		cur := g.b.String()
+		if k := strings.LastIndex(cur, "</w:body>"); k >= 0 {
+			g.b.Reset()
+			g.b.WriteString(cur[:k] + tb.String() + cur[k:])
+			switch {
+			case gridCols < 0:
+				feats["plain table without a grid definition"]++
+			case gridCols < cols:
+				feats["plain table whose grid is shorter than its rows"]++
+			case gridCols > cols:
+				feats["plain table whose grid is longer than its rows"]++
+			default:
+				feats["plain table with a matching grid"]++
+			}
+		}
+	}
 	g.b.WriteString("</" + rootOpen + ">")
 	if r.chance(10) {
 		g.b.WriteString("<!-- trailing --><trailing/>")
@@ -565,16 +603,29 @@ func exerciseDoc(d *document.Document, r *rng, light bool) (ps []panicRec, notes
 		// structural edits: on tables whose rows differ in length or that hold merges these are C09's known
 		// findings; here they are applied to plain grids only (with or without a grid definition)
 		if rect {
-			guard("Table.InsertColumn", &ps, func() { _ = t.InsertColumn(0, []string{"a"}, 900) })
+			// positions anywhere in the table, at its edges and one beyond (a refused call is fine, a panic is not)
+			pos := func(n int) int {
+				if n <= 0 {
+					return 0
+				}
+				return r.intn(n + 2)
+			}
+			guard("Table.InsertColumn", &ps, func() { _ = t.InsertColumn(pos(t.GetColumnCount()), []string{"a"}, 900) })
 			guard("Table.AppendColumn", &ps, func() { _ = t.AppendColumn([]string{"b"}, 900) })
-			guard("Table.DeleteColumn", &ps, func() { _ = t.DeleteColumn(0) })
-			guard("Table.DeleteColumns", &ps, func() { _ = t.DeleteColumns(0, 0) })
-			guard("Table.InsertRow", &ps, func() { _ = t.InsertRow(0, []string{"r"}) })
+			guard("Table.DeleteColumn", &ps, func() { _ = t.DeleteColumn(pos(t.GetColumnCount() - 1)) })
+			guard("Table.DeleteColumns", &ps, func() {
+				a := pos(t.GetColumnCount() - 1)
+				_ = t.DeleteColumns(a, a+r.intn(2))
+			})
+			guard("Table.InsertRow", &ps, func() { _ = t.InsertRow(pos(t.GetRowCount()), []string{"r"}) })
 			guard("Table.AppendRow", &ps, func() { _ = t.AppendRow([]string{"r"}) })
-			guard("Table.DeleteRow", &ps, func() { _ = t.DeleteRow(0) })
-			guard("Table.MergeCellsHorizontal", &ps, func() { _ = t.MergeCellsHorizontal(0, 0, 1) })
-			guard("Table.UnmergeCells", &ps, func() { _ = t.UnmergeCells(0, 0) })
-			guard("Table.MergeCellsVertical", &ps, func() { _ = t.MergeCellsVertical(0, 1, 0) })
+			guard("Table.DeleteRow", &ps, func() { _ = t.DeleteRow(pos(t.GetRowCount() - 1)) })
+			guard("Table.MergeCellsHorizontal", &ps, func() {
+				a := pos(t.GetColumnCount() - 2)
+				_ = t.MergeCellsHorizontal(pos(t.GetRowCount()-1), a, a+1)
+			})
+			guard("Table.UnmergeCells", &ps, func() { _ = t.UnmergeCells(pos(t.GetRowCount()-1), pos(t.GetColumnCount()-1)) })
+			guard("Table.MergeCellsVertical", &ps, func() { _ = t.MergeCellsVertical(0, 1, pos(t.GetColumnCount()-1)) })
 		}
 		guard("Table.ClearTable", &ps, func() { t.ClearTable() })
 	}
